@@ -211,9 +211,12 @@ def wf_errors(fn, ssa):
                 errs.append(("phi-duplicate-label", f"{bb.label.value}: {inst}"))
             # every phi argument must come from a CFG predecessor (extra predecessors without an argument are
             # tolerated: the value is then undefined on that edge and VarDefinition reports uses)
+            # an argument for a block that is no longer a predecessor is tolerated (SCCP folds a jnz and leaves the stale
+            # argument to the SimplifyCFG that must follow it: it can never be selected); an argument naming a block that
+            # does not exist is not
             for l in labs:
-                if l not in preds_all[bb.label.value]:
-                    errs.append(("phi-label-not-predecessor", f"{bb.label.value}: {inst} preds={sorted(preds_all[bb.label.value])}"))
+                if l not in labels:
+                    errs.append(("phi-label-unknown-block", f"{bb.label.value}: {inst} preds={sorted(preds_all[bb.label.value])}"))
             if ssa and not (preds[bb.label.value] <= set(labs)):
                 errs.append(("phi-arity", f"{bb.label.value}: {inst} preds={sorted(preds[bb.label.value])}"))
     return errs
